@@ -3,6 +3,7 @@ package main
 import (
 	"fmt"
 	"sort"
+	"strconv"
 	"strings"
 	"sync"
 	"time"
@@ -59,6 +60,73 @@ func c03KPCmp(c int) gogu.CompFn[c03KP] {
 	}
 }
 
+// ---------- string instances (ty 2, ty 3) ----------
+//
+// ty 2: Heap[string]; the integer e on the wire stands for the 20-digit decimal string of
+// uint64(e) ^ 1<<63 (injective, and string order = integer order).  ty 3:
+// Heap[c03SP] (struct{key string; payload int}) with key = that string for e / 10 and
+// payload = e % 10.  Every string is BUILT AT RUN TIME for every single use (strconv +
+// concatenation: a fresh backing array each time), so two equal values never share storage:
+// code that compares or hashes them by address instead of by content (Delete's ==) goes wrong
+// here and only here.  The zero value ("" / the zero struct) is 0 on the wire.
+type c03SP struct {
+	key     string
+	payload int
+}
+
+func c03Str(e int64) string {
+	d := strconv.FormatUint(uint64(e)^(1<<63), 10)
+	return strings.Repeat("0", 20-len(d)) + d // always a freshly allocated string
+}
+
+func c03Unstr(s string) int64 {
+	if s == "" {
+		return 0
+	}
+	u, err := strconv.ParseUint(s, 10, 64)
+	if err != nil {
+		return -777002 // not a string we ever built
+	}
+	return int64(u ^ (1 << 63))
+}
+
+func c03StrCmp(c int) gogu.CompFn[string] {
+	switch c {
+	case 0:
+		return func(a, b string) bool { return a < b }
+	case 1:
+		return func(a, b string) bool { return a > b }
+	case 2:
+		return func(a, b string) bool { return c03Unstr(a)/10 < c03Unstr(b)/10 }
+	default:
+		return func(a, b string) bool { return c03Unstr(a)/10 > c03Unstr(b)/10 }
+	}
+}
+
+func c03SPEnc(v c03SP) int64 {
+	if v.key == "" {
+		return int64(v.payload) // the zero struct is 0
+	}
+	return c03Unstr(v.key)*10 + int64(v.payload)
+}
+func c03SPDec(e int64) c03SP { return c03SP{key: c03Str(e / 10), payload: int(e % 10)} }
+func c03SPCmp(c int) gogu.CompFn[c03SP] {
+	switch c {
+	case 0:
+		return func(a, b c03SP) bool { return c03SPEnc(a) < c03SPEnc(b) }
+	case 1:
+		return func(a, b c03SP) bool { return c03SPEnc(a) > c03SPEnc(b) }
+	case 2:
+		return func(a, b c03SP) bool { return a.key < b.key } // string order of the keys
+	default:
+		return func(a, b c03SP) bool { return a.key > b.key }
+	}
+}
+
+// c03BadZero is reported instead of a Pop/Peek result when the string instances see the zero
+// value come out of a non-empty heap, or anything else out of an empty one.
+const c03BadZero = -777001
+
 // c03Obs is the observation buffer shared between the worker goroutine and
 // the watchdog.
 type c03Obs struct {
@@ -108,7 +176,17 @@ func c03EncList(o *c03Obs, xs []int64) {
 }
 
 // c03History interprets a history against real heaps of element type T.
-func c03History[T comparable](r *R, o *c03Obs, st *c03Stats, dec func(int64) T, enc func(T) int64, cmpOf func(int) gogu.CompFn[T]) {
+func c03History[T comparable](r *R, o *c03Obs, st *c03Stats, dec func(int64) T, enc func(T) int64, cmpOf func(int) gogu.CompFn[T], zeroDistinct bool) {
+	// encAt: the result of a Pop/Peek made when the heap was (not) empty.  For the element types
+	// whose zero value cannot be a held element (strings) the zero value must come out exactly
+	// when the heap is empty.
+	encAt := func(v T, wasEmpty bool) int64 {
+		var zero T
+		if zeroDistinct && wasEmpty != (v == zero) {
+			return c03BadZero
+		}
+		return enc(v)
+	}
 	c0, c1 := r.Int(), r.Int()
 	h0 := heap.NewHeap(cmpOf(c0))
 	h1 := heap.NewHeap(cmpOf(c1))
@@ -141,9 +219,11 @@ func c03History[T comparable](r *R, o *c03Obs, st *c03Stats, dec func(int64) T, 
 						break
 					}
 				}
-				payload = []int64{enc(h0.Pop())}
+				wasEmpty := len(vals) == 0
+				payload = []int64{encAt(h0.Pop(), wasEmpty)}
 			case 3:
-				payload = []int64{enc(h0.Peek())}
+				wasEmpty := h0.IsEmpty()
+				payload = []int64{encAt(h0.Peek(), wasEmpty)}
 			case 4:
 				h0.Clear()
 			case 5:
@@ -250,7 +330,7 @@ func c03History[T comparable](r *R, o *c03Obs, st *c03Stats, dec func(int64) T, 
 		p := try(func() {
 			bound := h.Size() + 8
 			for k := 0; k < bound && !h.IsEmpty(); k++ {
-				popped = append(popped, enc(h.Pop()))
+				popped = append(popped, encAt(h.Pop(), false))
 			}
 			empty = h.IsEmpty()
 		})
@@ -268,7 +348,8 @@ func c03History[T comparable](r *R, o *c03Obs, st *c03Stats, dec func(int64) T, 
 		return
 	}
 	if try(func() {
-		o.add(int64(h0.Size()), int64(h1.Size()), int64(h2.Size()), enc(h0.Pop()), enc(h0.Peek()))
+		e0 := h0.IsEmpty()
+		o.add(int64(h0.Size()), int64(h1.Size()), int64(h2.Size()), encAt(h0.Pop(), e0), encAt(h0.Peek(), e0))
 	}) {
 		st.panicked = true
 		o.add(2)
@@ -307,7 +388,7 @@ func c03Run(in []int64) ([]int64, *c03Stats) {
 		defer close(done)
 		r := &R{w: in}
 		mode, ty := r.Int(), r.Int()
-		if r.bad || (ty != 0 && ty != 1) {
+		if r.bad || ty < 0 || ty > 3 {
 			o.add(-999999)
 			return
 		}
@@ -318,13 +399,21 @@ func c03Run(in []int64) ([]int64, *c03Stats) {
 		encI := func(x int) int64 { return int64(x) }
 		switch {
 		case mode == 0 && ty == 0:
-			c03History(r, o, st, idI, encI, c03IntCmp)
+			c03History(r, o, st, idI, encI, c03IntCmp, false)
 		case mode == 0 && ty == 1:
-			c03History(r, o, st, c03KPDec, c03KPEnc, c03KPCmp)
+			c03History(r, o, st, c03KPDec, c03KPEnc, c03KPCmp, false)
+		case mode == 0 && ty == 2:
+			c03History(r, o, st, c03Str, c03Unstr, c03StrCmp, true)
+		case mode == 0 && ty == 3:
+			c03History(r, o, st, c03SPDec, c03SPEnc, c03SPCmp, true)
 		case mode == 1 && ty == 0:
 			c03Sort(r, o, st, idI, encI, c03IntCmp)
 		case mode == 1 && ty == 1:
 			c03Sort(r, o, st, c03KPDec, c03KPEnc, c03KPCmp)
+		case mode == 1 && ty == 2:
+			c03Sort(r, o, st, c03Str, c03Unstr, c03StrCmp)
+		case mode == 1 && ty == 3:
+			c03Sort(r, o, st, c03SPDec, c03SPEnc, c03SPCmp)
 		default:
 			r.bad = true
 		}
@@ -371,8 +460,13 @@ func describeC03(in []int64) string {
 		specOnly = "[judged by the specification only] "
 	}
 	tn := "int"
-	if ty == 1 {
+	switch ty {
+	case 1:
 		tn = "struct{key,payload} coded key*10+payload"
+	case 2:
+		tn = "string (20-digit decimal of the code, built at run time)"
+	case 3:
+		tn = "struct{key string,payload} coded key*10+payload"
 	}
 	var sb strings.Builder
 	sb.WriteString(specOnly)
@@ -561,6 +655,7 @@ func genC03(g *Gen) {
 		}
 		return a
 	}
+	stream := "exhaustive"
 	enum := func(s setup, alpha []c03Op, lo, hi int, prefix []c03Op) {
 		for n := lo; n <= hi; n++ {
 			seqsExact(len(alpha), n, func(seq []int) {
@@ -568,7 +663,7 @@ func genC03(g *Gen) {
 				for _, k := range seq {
 					ops = append(ops, alpha[k])
 				}
-				c03Emit(g, "exhaustive", c03Hist(s.ty, s.c0, s.c1, ops))
+				c03Emit(g, stream, c03Hist(s.ty, s.c0, s.c1, ops))
 			})
 		}
 	}
@@ -748,6 +843,140 @@ func genC03(g *Gen) {
 		}
 	}
 	g.Exhaustive("exhaustive")
+
+	// 5b. INSTANCES: the same wire histories on Heap[string] (ty 2) and on Heap[struct{key string;
+	//     payload int}] (ty 3).  Every string is built at run time for every use, so equal values
+	//     never share a backing array: Delete's ==, the zero value ("" / zero struct) returned by
+	//     Peek/Pop on an empty heap, copying in Merge/Meld/GetValues/FromSlice/Sort are exercised on
+	//     a type where content and address differ.  Model and wire are the ones of ty 0/1.
+	stream = "instances"
+	isetups := []setup{{2, 0, 1, 1}, {2, 1, 0, 0}, {2, 2, 3, 3}, {3, 2, 3, 3}, {3, 0, 1, 1}}
+	for si, s := range isetups {
+		full := mkAlpha(s, "push", "pop", "peek", "clear", "convert", "delete", "values", "merge", "meld", "swap", "swap2")
+		core := mkAlpha(s, "push", "pop", "convert", "delete2", "merge")
+		li := 3
+		if !g.Quick() && (si == 0 || si == 3) {
+			li = 4 // thorough: one set-up per element type goes one operation further
+		}
+		enum(s, full, 0, li, nil)
+		enum(s, core, li+1, li+1, nil)
+		// from pre-built depth-3 heaps: Delete of every value, Pops, Convert, Peek
+		alpha := mkAlpha(s, "push", "pop", "convert", "delete", "peek")
+		for _, sd := range seeds[:2] {
+			enum(s, alpha, 0, 3, []c03Op{c03FromSliceOp(s.c0, sd)})
+		}
+	}
+	// every slice up to length 5 (6): FromSlice + drain, Sort, FromSlice + Delete of each value,
+	// FromSlice + GetValues + Convert; all four comparators on both instances
+	slicesOver(vals, g.Pick(5, 6), func(sl []int) {
+		for ty := 2; ty <= 3; ty++ {
+			for c := 0; c < 4; c++ {
+				c03Emit(g, stream, c03Hist(ty, c, c, []c03Op{c03FromSliceOp(c, sl)}))
+				w := &W{}
+				w.Int(1).Int(ty).Int(c).Ints(sl)
+				c03Emit(g, stream, w.Out())
+				if len(sl) > 0 && len(sl) <= 4 {
+					for _, v := range vals {
+						c03Emit(g, stream, c03Hist(ty, c, c, []c03Op{c03FromSliceOp(c, sl), {6, v}, {6, v}}))
+					}
+					c03Emit(g, stream, c03Hist(ty, c, c, []c03Op{c03FromSliceOp(c, sl), {9}, {5, c ^ 1}, {9}}))
+				}
+			}
+		}
+	})
+	// Merge / Meld with all three heaps re-used, small arguments
+	for _, s := range isetups {
+		slicesOver(vals, 2, func(b []int) {
+			b = cloneInts(b)
+			for _, prep := range [][]c03Op{{}, pushes(10, 20, 21), cat(pushes(21, 10, 20, 0), []c03Op{{2}, {2}}), {c03FromSliceOp(s.c0, []int{20, 10, 21})}} {
+				for _, code := range []int{11, 12} {
+					for _, f := range [][]c03Op{{}, {{1, 0}, {15}, {1, 21}, {15}, {2}}, {{15}, {6, 10}, {13}, {6, 21}, {13}, {6, 0}}} {
+						c03Emit(g, stream, c03Hist(s.ty, s.c0, s.c1, cat([]c03Op{{13}}, pushes(b...), []c03Op{{13}}, prep, []c03Op{{code}}, f)))
+					}
+				}
+			}
+		})
+	}
+	g.Exhaustive("instances")
+	// random histories and random Sorts on the string instances (values 0..50; negative and huge ones too)
+	for k := 0; k < g.Pick(120, 1200); k++ {
+		ty := 2 + g.Rng.Intn(2)
+		var ops []c03Op
+		var held []int
+		for i := 0; i < 120; i++ {
+			v := g.Rng.Intn(51)
+			if g.Rng.Intn(20) == 0 {
+				v = []int{-7, -70, 1 << 40, -(1 << 40)}[g.Rng.Intn(4)]
+			}
+			switch x := g.Rng.Intn(100); {
+			case x < 36:
+				ops = append(ops, c03Op{1, v})
+				held = append(held, v)
+			case x < 50:
+				ops = append(ops, c03Op{2})
+			case x < 55:
+				ops = append(ops, c03Op{3})
+			case x < 72:
+				if len(held) > 0 && g.Rng.Intn(5) > 0 {
+					v = held[g.Rng.Intn(len(held))]
+				}
+				ops = append(ops, c03Op{6, v})
+			case x < 77:
+				ops = append(ops, c03Op{5, g.Rng.Intn(4)})
+			case x < 80:
+				sl := randSlice(g.Rng, 20, 0, 50)
+				ops = append(ops, c03FromSliceOp(g.Rng.Intn(4), sl))
+				held = cloneInts(sl)
+			case x < 84:
+				ops = append(ops, c03Op{11})
+			case x < 87:
+				ops = append(ops, c03Op{12})
+			case x < 91:
+				ops = append(ops, c03Op{13})
+				held = nil
+			case x < 93:
+				ops = append(ops, c03Op{15})
+				held = nil
+			case x < 95:
+				ops = append(ops, c03Op{9})
+			case x < 96:
+				ops = append(ops, c03Op{4})
+				held = nil
+			default:
+				sl := randSlice(g.Rng, 5, 0, 50)
+				ops = append(ops, append(c03Op{14, len(sl)}, sl...))
+				held = append(held, sl...)
+			}
+		}
+		c03Emit(g, "instances-random", c03Hist(ty, g.Rng.Intn(4), g.Rng.Intn(4), ops))
+		w := &W{}
+		w.Int(1).Int(ty).Int(g.Rng.Intn(4)).Ints(randSlice(g.Rng, 60, -5, []int{3, 50, 1000}[g.Rng.Intn(3)]))
+		c03Emit(g, "instances-random", w.Out())
+	}
+	// a few large ones: string heaps of 130 and 1030 elements (the latter judged by the specification only)
+	for _, n := range []int{130, 1030} {
+		for ty := 2; ty <= 3; ty++ {
+			vs := make([]int, n)
+			for i := range vs {
+				vs[i] = g.Rng.Intn(5 * n)
+			}
+			ops := []c03Op{c03FromSliceOp(ty-2, vs[:n/2])}
+			for _, v := range vs[n/2:] {
+				ops = append(ops, c03Op{1, v})
+			}
+			in := c03Hist(ty, ty-2, 1, ops)
+			mode := 1
+			if n > 130 {
+				in[0] = 2
+				mode = 3
+			}
+			c03Emit(g, "instances-random", in)
+			w := &W{}
+			w.Int(mode).Int(ty).Int(5 - ty).Ints(vs)
+			c03Emit(g, "instances-random", w.Out())
+		}
+	}
+	stream = "exhaustive"
 
 	// 6. seeded random histories of length 200 over 0..50, Convert in the mix
 	nr := g.Pick(300, 3000)
@@ -1066,6 +1295,7 @@ func init() {
 			"Merge/Meld of every pair of FromSlice heaps up to length 2 (3); Convert (once, thrice, to the same comparator) on 16 kinds of heaps of 0 or 1 elements followed by every sequence of 2 and 3 pushes and Peek/Merge/Meld; " +
 			"then seeded random histories of 200 operations over 0..50 (all 15 operations) and random Sort/FromSlice inputs up to length 60; " +
 			"a LARGE stream: heaps of 40, 130, 300, 1030 (thorough 3000, 10000) elements built by Push, one batch Push, FromSlice, Convert, Merge and Meld of two large heaps, saw-tooth histories, batch Push of 2..100 values onto heaps of 0..300, Deletes in heaps of 40..300 (1030), all drained completely, and Sort of 100..2000 (10000) elements (random, many ties, sorted, reversed, all tied) — the cases above 130 (300) heap elements / 257 (600) sort elements are judged against the specification only (modes 2/3), the others also against the model; " +
+			"an INSTANCES stream: the same wire histories on Heap[string] and Heap[struct{key string; payload int}] (strings built at run time for every use, equal values never share storage; zero value on the wire 0, a misplaced zero value reported as -777001) — 17-op alphabet up to length 3 (thorough: 4 for one set-up per type), 8-op alphabet at the next length, two pre-built depth-3 heaps + 11-op alphabet up to 3, every slice up to length 5 (6) through FromSlice/Sort/Delete/GetValues/Convert under all four comparators, Merge/Meld with the three heaps re-used — plus 120 (1200) random 120-op histories and Sorts with negative and huge values and string heaps of 130 and 1030 elements; " +
 			"plus degenerate inputs (operations on empty and melded-away heaps, absent and repeated Deletes, negative and huge values). " +
 			"Observed: every return value, Size after every operation, GetValues as a sorted multiset, the contents of both inputs right after Merge/Meld, and a final drain of all three heaps by Pop. " +
 			"A case counts as non-trivial when a heap (or the slice to sort) held at least 3 elements, i.e. a sift had two children to choose from."})
